@@ -44,6 +44,21 @@ pub fn run(t: &[&str]) -> String {
         for i in diff.iter().take(8) {
             out += &format!(" {} {}", *i as u32 % s.w, *i as u32 / s.w);
         }
+        // the same two orders under back-face culling through the y-mirrored viewport: on screen the
+        // winding is reversed, so the other order must be the one that survives
+        let mut flipped = vec![];
+        for order in 0..2 {
+            let mut s2 = s.clone();
+            s2.cull = 'b';
+            s2.vp = [s.vp[0], s.vp[3], s.vp[2], s.vp[1]];
+            if order == 1 {
+                let t0 = s2.tris[0];
+                s2.tris[0] = [t0[0], t0[2], t0[1]];
+            }
+            s2.hist = vec![(s.sort, vec![0])];
+            flipped.push(written(&run_scene(&s2, s.door)));
+        }
+        out += &format!(" | {} {}", flipped[0], flipped[1]);
         // prims.o of the same six renders: A/b A/f B/b B/f A/n B/n
         out += &format!(" | {} {} {} {} {} {}", prims_o[0], prims_o[1], prims_o[3], prims_o[4], prims_o[2], prims_o[5]);
     } else {
@@ -53,9 +68,9 @@ pub fn run(t: &[&str]) -> String {
 }
 
 pub fn gen(rng: &mut Rng, tier: Tier, out: &mut Vec<String>) {
-    let n_scenes = if tier == Tier::Quick { 12 } else { 300 };
+    let n_scenes = if tier == Tier::Quick { 15 } else { 300 };
     for i in 0..n_scenes {
-        let ntris = 1 + (i % 3);
+        let ntris = [1usize, 2, 1, 3, 1][i % 5];
         // geometry first, flags substituted afterwards
         let (hdr, _, _) = header(rng, 'r', "@TGT@", "@FLAGS@", 1);
         let mut verts: Vec<Vec<f32>> = vec![];
@@ -63,7 +78,7 @@ pub fn gen(rng: &mut Rng, tier: Tier, out: &mut Vec<String>) {
         for j in 0..ntris {
             for _ in 0..3 {
                 // single-triangle scenes stay inside the frustum (culling is judged there)
-                let outside = ntris > 1 && rng.chance(1, 3);
+                let outside = (ntris > 1 && rng.chance(1, 3)) || (ntris == 1 && i % 2 == 1);
                 let mut p = gen_clip_vertex(rng, outside).to_vec();
                 p.push(rng.f32_in(-10.0, 10.0));
                 verts.push(p);
@@ -79,6 +94,14 @@ pub fn gen(rng: &mut Rng, tier: Tier, out: &mut Vec<String>) {
         // a second call re-drawing triangle 0 makes depth-test predicates and stats accumulate
         body += &format!(" h 2 n {} {} n 1 0", ntris, (0..ntris).map(|x| x.to_string()).collect::<Vec<_>>().join(" "));
         let zinit = *rng.pick(&[0.0f32, 0.4]);
+        // a third of the scenes use a y-up (mirrored) viewport: viewport(pt2(l, b)..pt2(r, t))
+        let hdr = if i % 3 == 2 {
+            let vp = hdr.split(' ').find(|t| t.starts_with("vp=")).unwrap().to_string();
+            let c: Vec<&str> = vp[3..].split(',').collect();
+            hdr.replace(&vp, &format!("vp={},{},{},{}", c[0], c[3], c[2], c[1]))
+        } else {
+            hdr
+        };
         for cull in ['n', 'f', 'b'] {
             for test in ['n', 'l', 'g', 'e'] {
                 for cw in [0, 1] {
